@@ -588,7 +588,7 @@ func (w *observingWriter) Write(p []byte) (int, error) {
 
 func c03CodecOn(c *fw.Ctx, g *model.G, m wkbMode) {
 	r := c.R
-	t := g.BuildFlat()
+	t := spareStored(c, g, g.BuildFlat())
 	want, fields, rerr := ref.WriteWKB(g, m.o)
 	c.Count("mode_" + m.name)
 	// encode
@@ -1033,7 +1033,7 @@ func c03SQL(c *fw.Ctx, idx int) {
 		m = wkbMode{"ewkb-ndr", ref.WKBOpts{EWKB: true}}
 	}
 	c.SetInput(map[string]any{"geometry": g.String(), "format": m.name})
-	t := g.BuildFlat()
+	t := spareStored(c, g, g.BuildFlat())
 	want, _, rerr := ref.WriteWKB(g, m.o)
 	mk := wkbWrapper
 	if useE {
